@@ -63,6 +63,8 @@ pub fn arch_check(ctx: &Ctx, arch: Arch, stream: u64, rule: &str) -> i32 {
             report.violations.push(write_replay(ctx, "native-linear", &bytes, &f));
         }
     }
+    // exhaustive operator/comparison placement matrix
+    super::opmatrix::run(ctx, arch, &mut ev, &mut report);
     // coverage-guided campaigns over the generators' choice buffers (thorough only)
     {
         let (m1, m2) = match arch {
@@ -144,6 +146,9 @@ pub fn replay(ctx: &Ctx, arch: Arch, sub: &str, bytes: &[u8], case: &serde_json:
     }
     if sub.starts_with("core-pipeline") {
         return run_core_lin_case(ctx, arch, bytes, false).0;
+    }
+    if sub.starts_with("matrix") {
+        return super::opmatrix::replay(ctx, arch, case);
     }
     let c = fun_case_from_json(case).unwrap_or_else(|| decode(ctx, arch, bytes));
     run_fun_case(ctx, arch, &c.prog, &c.tuples, false).0
